@@ -80,6 +80,11 @@ pub fn run(ctx: &mut Ctx) {
                         text.push_str(r.pick_str(&corpus.sentences));
                     }
                 }
+                // every fourth text holds spellings that belong to one dialect only
+                let dialect_only_change = i % 4 == 1; // (the settings change below happens for odd i)
+                if i % 4 == 1 || i % 4 == 2 {
+                    text.push_str(r.pick_str(&[" The colour of the harbour was grey.", " Her favorite color is gray, we realize.", " An aeroplane and a theatre in the centre.", " We organise the catalogue of honours."]));
+                }
                 if fe == Fe::Html {
                     text = format!("<p>{}</p>\n", text.replace('<', " ").replace('&', " ").replace("\n\n", "</p>\n<p>"));
                 }
@@ -129,9 +134,15 @@ pub fn run(ctx: &mut Ctx) {
                 // every second case: the settings change while the (never saved) document stays open
                 let mut then = serde_json::Value::Null;
                 if i % 2 == 0 {
-                    let (dialect2, dname2) = *r.pick(&dialects);
+                    let (mut dialect2, mut dname2) = *r.pick(&dialects);
                     let mut linters2 = linters.clone();
-                    for _ in 0..r.range(1, 6) {
+                    if dialect_only_change {
+                        // only the dialect changes (whatever is keyed by the text and the rule switches stays the same)
+                        while dialect2 == dialect {
+                            (dialect2, dname2) = *r.pick(&dialects);
+                        }
+                    }
+                    for _ in 0..(if dialect_only_change { 0 } else { r.range(1, 6) }) {
                         let k = r.pick(&keys).clone();
                         match r.below(3) {
                             0 => {
@@ -146,7 +157,7 @@ pub fn run(ctx: &mut Ctx) {
                         }
                     }
                     // switch off one of the rules that fire here, now and then
-                    if let (Some(l), true) = (lints.first(), r.chance(1, 2)) {
+                    if let (Some(l), true, false) = (lints.first(), r.chance(1, 2), dialect_only_change) {
                         let msg = l.message.clone();
                         let mut probe = LintGroup::new_curated(merged.clone(), dialect);
                         probe.set_all_rules_to(Some(false));
